@@ -1069,14 +1069,94 @@ pub fn api() -> ApiDescription<ZooCtx> {
     api
 }
 
+// ---------------------------------------------------------------------------
+// a trait-based API: its DOCUMENT comes from the stub description (no
+// implementation involved) while the SERVER is built from the implementation.
+// Users of API traits publish the former and run the latter, so the C07 clauses
+// must hold across the two.
+// ---------------------------------------------------------------------------
+
+#[dropshot::api_description]
+pub trait TraitZoo {
+    type Context;
+
+    #[endpoint { method = POST, path = "/tz/json/{s}/{n}", tags = ["trait"] }]
+    async fn tz_json(
+        rqctx: RequestContext<Self::Context>,
+        path: Path<PBasic>,
+        query: Query<QRenamed>,
+        body: TypedBody<Plain>,
+    ) -> Result<HttpResponseOk<Plain>, HttpError>;
+
+    #[endpoint { method = POST, path = "/tz/form", content_type = "application/x-www-form-urlencoded", tags = ["trait"] }]
+    async fn tz_form(rqctx: RequestContext<Self::Context>, body: TypedBody<Form>) -> Result<HttpResponseCreated<Form>, HttpError>;
+
+    #[endpoint { method = PUT, path = "/tz/raw", tags = ["trait"] }]
+    async fn tz_raw(rqctx: RequestContext<Self::Context>, body: UntypedBody) -> Result<HttpResponseOk<BytesInfo>, HttpError>;
+
+    #[endpoint { method = GET, path = "/tz/headers", tags = ["trait"] }]
+    async fn tz_headers(
+        rqctx: RequestContext<Self::Context>,
+        query: Query<QEnums>,
+    ) -> Result<HttpResponseHeaders<HttpResponseOk<Plain>, HdrOut>, HttpError>;
+
+    #[endpoint { method = DELETE, path = "/tz/item/{s}/{n}", tags = ["trait"] }]
+    async fn tz_delete(rqctx: RequestContext<Self::Context>, path: Path<PBasic>) -> Result<HttpResponseDeleted, HttpError>;
+
+    #[endpoint { method = PUT, path = "/tz/nested", tags = ["trait"] }]
+    async fn tz_nested(rqctx: RequestContext<Self::Context>, body: TypedBody<Nested>) -> Result<HttpResponseAccepted<Nested>, HttpError>;
+}
+
+pub enum TraitZooImpl {}
+
+impl TraitZoo for TraitZooImpl {
+    type Context = ZooCtx;
+
+    async fn tz_json(rq: Rq, _p: Path<PBasic>, _q: Query<QRenamed>, _b: TypedBody<Plain>) -> Result<HttpResponseOk<Plain>, HttpError> {
+        ok(&rq)
+    }
+    async fn tz_form(rq: Rq, _b: TypedBody<Form>) -> Result<HttpResponseCreated<Form>, HttpError> {
+        let mut r = rng_of(&rq);
+        Ok(HttpResponseCreated(Form::arb(&mut r, 0)))
+    }
+    async fn tz_raw(_rq: Rq, b: UntypedBody) -> Result<HttpResponseOk<BytesInfo>, HttpError> {
+        let bytes = b.as_bytes();
+        Ok(HttpResponseOk(BytesInfo { len: bytes.len() as u64, sum: bytes.iter().map(|b| *b as u64).sum() }))
+    }
+    async fn tz_headers(rq: Rq, _q: Query<QEnums>) -> Result<HttpResponseHeaders<HttpResponseOk<Plain>, HdrOut>, HttpError> {
+        let mut r = rng_of(&rq);
+        Ok(HttpResponseHeaders::new(HttpResponseOk(Plain::arb(&mut r, 0)), HdrOut::arb(&mut r, 0)))
+    }
+    async fn tz_delete(_rq: Rq, _p: Path<PBasic>) -> Result<HttpResponseDeleted, HttpError> {
+        Ok(HttpResponseDeleted())
+    }
+    async fn tz_nested(rq: Rq, _b: TypedBody<Nested>) -> Result<HttpResponseAccepted<Nested>, HttpError> {
+        let mut r = rng_of(&rq);
+        Ok(HttpResponseAccepted(Nested::arb(&mut r, 0)))
+    }
+}
+
+/// the document a user of the trait publishes: from the stub, no implementation
+pub fn trait_document() -> Value {
+    trait_zoo_mod::stub_api_description()
+        .expect("stub description")
+        .openapi("trait-zoo", semver::Version::new(1, 0, 0))
+        .json()
+        .expect("openapi json")
+}
+
+pub fn trait_api() -> ApiDescription<ZooCtx> {
+    trait_zoo_mod::api_description::<TraitZooImpl>().expect("trait api description")
+}
+
 pub fn document() -> Value {
     api().openapi("zoo", semver::Version::new(1, 0, 0)).json().expect("openapi json")
 }
 
 /// `c07-zoo-serve`: print `PORT <n>` and `DOC <path>`, serve until stdin closes.
-pub fn serve(doc_path: &str, workers: usize) {
+pub fn serve(doc_path: &str, workers: usize, trait_based: bool) {
     use std::io::{Read, Write};
-    let doc = document();
+    let doc = if trait_based { trait_document() } else { document() };
     let path = if doc_path.is_empty() {
         std::env::temp_dir().join(format!("vmon_oas_zoo_{}.json", std::process::id())).to_string_lossy().to_string()
     } else {
@@ -1096,7 +1176,7 @@ pub fn serve(doc_path: &str, workers: usize) {
     };
     let server = rt
         .block_on(async move {
-            ServerBuilder::new(api(), ZooCtx, vmon::srv::discard_logger()).config(config).start()
+            ServerBuilder::new(if trait_based { trait_api() } else { api() }, ZooCtx, vmon::srv::discard_logger()).config(config).start()
         })
         .expect("start zoo server");
     let out = std::io::stdout();
